@@ -271,6 +271,41 @@ example :
       [['a'], ['H', '1'], ['H', '2'], ['H', '3'], ['H', '4']] := by
   decide
 
+/-! ## Witness: today's `Progress.stop` finishes outside its lock -/
+
+def cfgP (tailUnlocked : Bool) : Cfg :=
+  { kind := .progress, width := 20, height := 8, record := false, transient := true, stopTailUnlocked := tailUnlocked }
+
+def shP : Shared :=
+  { tasks := [{ id := 0, desc := ['a'], completed := 0, visible := true }],
+    renderable := Live.tasksTable [{ id := 0, desc := ['a'], completed := 0, visible := true }] }
+
+/-- thread 0 starts and stops a transient Progress, thread 1 calls `start()` -/
+def progsP : List (List Op) := [[.start, .stop], [.start]]
+
+/-- thread 0 runs until `stop()` has released the progress lock (81 steps), thread 1 runs `start()` to completion,
+thread 0 finishes `stop()` (transient erase, `_shape = None`), thread 1 gets further turns (it has none left to use). -/
+def schedP : List Nat := List.replicate 81 0 ++ List.replicate 80 1 ++ List.replicate 20 0 ++ List.replicate 80 1
+
+set_option maxRecDepth 100000 in
+/-- Today's code (`stopTailUnlocked = true`): the restarted display is drawn on the row below the one `stop()` then
+erases, and `stop()`'s late `_shape = None` makes the display forget the frame it has on screen — the screen ends as a
+blank row followed by the frame, with no recorded shape although the display is started. -/
+theorem old_progress_stop_tail_races_start :
+    let s := run (cfgP true) (initState shP progsP) schedP
+    (replay 8 Screen.init (fileOps s)).rows = [[], ['a', ' ', '0']] ∧ s.sh.shape = none ∧ s.sh.started = true ∧
+      ((List.range 2).all fun t => (s.th t).done) = true := by
+  decide
+
+set_option maxRecDepth 100000 in
+/-- The repaired `stop()` (erase and reset before the lock is released), same schedule: thread 1 waits for the lock,
+the old display is gone before the new one is drawn, and the shape of the frame on screen is recorded. -/
+example :
+    let s := run (cfgP false) (initState shP progsP) schedP
+    (replay 8 Screen.init (fileOps s)).rows = [['a', ' ', '0'], []] ∧ s.sh.shape = some (3, 1) ∧ s.sh.started = true ∧
+      ((List.range 2).all fun t => (s.th t).done) = true := by
+  decide
+
 /-! ## Non-vacuity -/
 
 /-- A constant-height session that meets every hypothesis of `live_screen_under_schedules_partial`: the
